@@ -8,7 +8,7 @@ import itertools, math, re
 from vlib import caseio
 
 ID = "C14"
-COQ_TARGETS = ["C14_Extract.vo", "C14_Proofs.vo"]
+COQ_TARGETS = ["C14_Extract.vo", "C14_Proofs.vo", "C14_Regress.vo"]
 EXTRACTED = "C14_model"
 DRIVER = "drv_C14.ml"
 HARNESS = "h_C14.cpp"
@@ -162,6 +162,16 @@ def g_sigma(g, rng, tier):
         g.add("sigma", "valid", dict(comps=rng.randint(1, 8), noise=rng.randint(0, 4), **lay("", l)))
 
 
+def g_psaug(g, rng, tier):
+    for l in FOUR + [(1, 0, 0)]:
+        for comps in (1, 2, 3, 4):
+            for (qr, qc, qr2, qc2) in ((2, 2, 0, 1), (1, 1, 3, 3), (2, 3, 2, 2), (3, 3, 1, 2)):
+                g.add("psaug", "valid", dict(comps=comps, qr=qr, qc=qc, qr2=qr2, qc2=qc2, **lay("", l)))
+    for _ in range(4 if tier == "quick" else 80):
+        l = (rng.randint(1, 5), rng.randint(0, 2), rng.randint(0, 1)); q1, q2 = rng.randint(1, 4), rng.randint(1, 4)
+        g.add("psaug", "valid", dict(comps=rng.randint(1, 9), qr=q1, qc=q1, qr2=q2, qc2=q2, **lay("", l)))
+
+
 def ut_case(variant, li, inoise, comps, lo, valid=1, w=None, pr=None, pc=None, qr=None, qc=None):
     base = 2 * lcov(li, inoise) + 1
     return dict(variant=variant, comps=comps, inoise=inoise, valid=valid,
@@ -173,8 +183,8 @@ def ut_case(variant, li, inoise, comps, lo, valid=1, w=None, pr=None, pc=None, q
 
 def g_ut(g, rng, tier):
     for variant in (0, 1, 2, 3, 4):
-        for li in FOUR:
-            for lo in FOUR:
+        for li in (FOUR if tier == "quick" else LAYOUTS):
+            for lo in (FOUR if tier == "quick" else LAYOUTS):
                 for comps in (1, 2, 3, 4):
                     inoise = 2 if variant in (1, 3) else 0         # the generic overloads are used on noise-augmented inputs
                     if variant == 2 and (li != lo):
@@ -188,8 +198,9 @@ def g_ut(g, rng, tier):
             g.add("ut", "valid", ut_case(variant, LIN, 2 if variant == 3 else 0, comps, (2, 0, 0), valid=0))
     for comps in (1, 2, 3, 4):
         for m in (1, 2, 3):
-            g.add("ut", "valid", ut_case(4, LIN, 0, comps, (m, 0, 0), valid=0), tag="failed-evaluation")
-    g.add("ut", "valid", ut_case(4, EUL, 0, 2, (1, 1, 0), valid=0), tag="failed-evaluation")
+            g.add("ut", "valid", ut_case(4, LIN, 0, comps, (m, 0, 0), valid=0))
+    g.add("ut", "valid", ut_case(4, EUL, 0, 2, (1, 1, 0), valid=0))
+    g.add("ut", "valid", ut_case(4, QUA, 0, 3, (0, 1, 1), valid=0))
     for _ in range(6 if tier == "quick" else 150):
         li = (rng.randint(0, 4), rng.randint(0, 2), rng.randint(0, 1)); lo = (rng.randint(0, 4), rng.randint(0, 2), rng.randint(0, 1))
         if ldim(li) == 0: li = (2, 0, 0)
@@ -211,7 +222,7 @@ def g_kf(g, rng, tier):
             l = (n, 0, 0)
             g.add("kfp", "valid", dict(d=n, comps=comps, compsq=comps, **lay("p", l), **lay("q", l)))
             for m in (1, 2, 3):
-                g.add("kfc", "valid", dict(m=m, n=n, comps=comps, compsq=comps, yr=m, yc=1, **lay("p", l), **lay("q", l)))
+                g.add("kfc", "valid", dict(m=m, n=n, comps=comps, compsq=comps, yr=m, yc=1, again=(m + comps) % 2, **lay("p", l), **lay("q", l)))
     # circular (Euler) components are stored like linear ones
     g.add("kfp", "valid", dict(d=3, comps=2, compsq=2, **lay("p", (2, 1, 0)), **lay("q", (2, 1, 0))))
     g.add("kfc", "valid", dict(m=2, n=3, comps=2, compsq=2, yr=2, yc=1, **lay("p", (2, 1, 0)), **lay("q", (1, 2, 0))))
@@ -244,13 +255,16 @@ def g_ukf(g, rng, tier):
             for lm in ((2, 0, 0), (1, 1, 0), (3, 0, 0)):
                 for comps in (1, 2, 3, 4):
                     r = lcov(lm)
-                    g.add("ukfc", "valid", dict(additive=add, comps=comps, compsq=comps, r=r if add else 2, valid=1, ir=lcov(lm),
-                                                **lay("p", lp), **lay("m", lm), **lay("q", lp)))
-    for comps in (1, 2, 3):
-        g.add("ukfc", "valid", dict(additive=0, comps=comps, compsq=comps, r=2, valid=0, ir=2, **lay("p", LIN), **lay("m", (2, 0, 0)), **lay("q", LIN)))
-        for m in (1, 2):
-            g.add("ukfc", "valid", dict(additive=1, comps=comps, compsq=comps, r=m, valid=0, ir=m, **lay("p", LIN), **lay("m", (m, 0, 0)), **lay("q", LIN)),
-                  tag="failed-evaluation")
+                    for again in (0, 1):
+                        # again: a second correction whose predictedMeasure fails, then getLikelihood()
+                        g.add("ukfc", "valid", dict(additive=add, comps=comps, compsq=comps, r=r if add else 2, valid=1, ir=lcov(lm), again=again,
+                                                    **lay("p", lp), **lay("m", lm), **lay("q", lp)))
+    # the evaluation fails on the first correction already (any component count, measurement sizes 1, 2, 3)
+    for comps in (1, 2, 3, 4):
+        for m in (1, 2, 3):
+            for add in (0, 1):
+                g.add("ukfc", "valid", dict(additive=add, comps=comps, compsq=comps, r=m if add else 2, valid=0, ir=m, again=comps % 2,
+                                            **lay("p", LIN), **lay("m", (m, 0, 0)), **lay("q", LIN)))
     # quaternion measurements: Pxy is sliced with total_size() (4 per quaternion), its blocks are dim_covariance (3) wide
     for add in (0, 1):
         for comps in (1, 2, 3):
@@ -271,7 +285,7 @@ def g_ukf(g, rng, tier):
             for msz, sub in ((2, 1), (2, 2), (4, 2), (3, 1), (6, 3), (3, 2), (1, 1)):
                 if tier == "quick" and (comps + msz) % 2 == 1 and comps > 1:
                     continue
-                g.add("sukf", "valid", dict(comps=comps, compsq=comps, msz=msz, sub=sub, r=msz, ir=msz, **lay("p", lp), **lay("q", lp)))
+                g.add("sukf", "valid", dict(comps=comps, compsq=comps, msz=msz, sub=sub, r=msz, ir=msz, again=(comps + sub) % 2, **lay("p", lp), **lay("q", lp)))
     for comps in (1, 2, 3):
         for lp in ((2, 1, 1), (0, 1, 1)):
             g.add("sukf", "valid", dict(comps=comps, compsq=comps, msz=2, sub=1, r=2, ir=2, **lay("p", lp), **lay("q", lp)), tag="quaternion-state")
@@ -357,7 +371,7 @@ def g_lifetime(g, rng, tier):
         g.add("lifetime", "valid", dict(what="gpf_move_fresh"), tag="uninitialised-flag")
 
 
-GENS = [g_wna, g_simstate, g_linsensor, g_history, g_grid, g_sigma, g_ut, g_kf, g_ukf, g_resample, g_density, g_extract, g_lifetime]
+GENS = [g_wna, g_simstate, g_linsensor, g_history, g_grid, g_sigma, g_psaug, g_ut, g_kf, g_ukf, g_resample, g_density, g_extract, g_lifetime]
 
 
 def generate(rng, tier):
@@ -434,6 +448,18 @@ def oracle(case, impl, model):
                     v.append(("C14:HistoryBuffer::getHistoryBuffer:stored>window", "%d stored with window %d" % (cols, win))); break
             else:
                 i += 1
+    if k in ("kfc", "ukfc", "sukf") and str(case.meta.get("again", "0")) == "1" and len(o) >= 8:
+        if o[-2] != 0 or o[-1] != 0:
+            name = {"kfc": "KFCorrection", "ukfc": "UKFCorrection", "sukf": "SUKFCorrection"}[k]
+            v.append(("C14:%s::getLikelihood:stale-after-unusable-measurement" % name,
+                      "getLikelihood() reports (%d, %d values) after a correction that could not use the measurement" % (o[-2], o[-1])))
+    if k == "psaug" and len(o) >= 9:
+        if not (o[5] == o[2] and o[6] == o[2] and o[7] == o[3]):
+            v.append(("C14:ParticleSet::augmentWithNoise:descriptor!=storage",
+                      "dim %d / dim_covariance %d but state rows %d, mean rows %d, covariance rows %d" % (o[2], o[3], o[5], o[6], o[7])))
+    if k == "lifetime" and case.meta.get("what") == "linearmodel_traits" and any(o):
+        v.append(("C14:LinearModel:copyable-or-movable-with-reference-capture",
+                  "LinearModel / SimulatedLinearSensor became copyable or movable (%s) while gauss_rnd_sample_ captures this by reference" % o))
     if k in ("resample", "resprior") and len(o) == 5:
         n = int(case.meta["n"] if k == "resprior" else case.meta["nr"])
         if not (o[0] == o[1] == o[2] == o[3] == n):
@@ -446,8 +472,13 @@ REPORT_KIND = {"eigen-assert": "eigen-assert", "asan": "asan", "ubsan": "ubsan"}
 
 
 def entry_of(info):
-    m = re.search(r"entry=(\S+)", info.get("stderr", ""))
-    return m.group(1) if m else "unknown"
+    se = info.get("stderr", "")
+    m = re.search(r"entry=(\S+)", se)
+    if m:
+        return m.group(1)
+    # UBSan's abort path does not run the death callback: take the innermost library frame of its stack trace
+    m = re.search(r"#\d+ 0x[0-9a-f]+ in (bfl::[^/]*?\)) /", se)
+    return m.group(1).replace("bfl::", "").replace(" ", "") if m else "unknown"
 
 
 def report_class(info):
@@ -509,7 +540,14 @@ def histogram(cases):
     return {"kind": h, "class": cls, "open_item_cases": tags}
 
 
-REQUIRED_THEOREMS = []
+REQUIRED_THEOREMS = ["C14_WhiteNoiseAcceleration_safe", "C14_SimulatedStateModel_safe", "C14_bufferData_exhaustion_reported",
+                     "C14_SimulatedLinearSensor_safe", "C14_HistoryBuffer_safe", "C14_InitSurveillanceAreaGrid_safe", "C14_sigma_point_safe", "C14_augmentWithNoise_safe",
+                     "C14_unscented_transform_safe", "C14_unscented_transform_additive_measurement_failed_safe", "C14_KFPrediction_safe",
+                     "C14_KFCorrection_safe", "C14_UKFPrediction_additive_safe", "C14_UKFPrediction_generic_safe", "C14_UKFCorrection_safe",
+                     "C14_UKFCorrection_quaternion_measurement_refuted",
+                     "C14_UKFCorrection_quaternion_state_refuted", "C14_SUKFCorrection_safe", "C14_SUKFCorrection_quaternion_state_refuted",
+                     "C14_Resampling_safe", "C14_ResamplingWithPrior_safe", "C14_ResamplingWithPrior_quaternion_refuted",
+                     "C14_gaussian_density_safe", "C14_gaussian_density_UVR_safe", "C14_EstimatesExtraction_safe"]
 RULE = ("exhaustive over the enumerated options: 3 Dim values x every measured-component subset of size <= 3 x component counts 1..4 x the "
         "layouts (linear, linear+Euler, linear+quaternion, quaternion only; with and without noise augmentation) x the five unscented-transform "
         "overloads x small num / window / call counts (call sequences longer than the trajectory, the window and the 30-element cap), plus seeded "
